@@ -22,7 +22,11 @@ def relDiff (a b : Rat) : Rat :=
   let mx := rmax (rabs a) (rabs b)
   if d = 0 then 0 else d / mx
 
-def floatsEqual (a b tol : Rat) : Bool := decide (relDiff a b < tol)
+/-- `Floats_Equal` (after e33c234: `<=`, so that a zero tolerance means "equal") -/
+def floatsEqual (a b tol : Rat) : Bool := decide (relDiff a b ≤ tol)
+
+/-- the comparison before e33c234: strict `<`, which is never true for a zero tolerance -/
+def floatsEqualStrict (a b tol : Rat) : Bool := decide (relDiff a b < tol)
 
 /-- the formula before a32e880: `d / max`, which is `0/0` (NaN, `none`) at `(0,0)` -/
 def relDiffOld (a b : Rat) : Option Rat :=
